@@ -6,6 +6,7 @@ import (
 	"os"
 	"path/filepath"
 
+	"github.com/Dash-Industry-Forum/livesim2/internal/vhook"
 	"github.com/Eyevinn/dash-mpd/mpd"
 )
 
@@ -113,6 +114,7 @@ func (sg *segmentTimelineGenerator) generateSegmentTimelineNrMPD(log *slog.Logge
 		log.Error("Failed to create tmp file", "err", err)
 		return err
 	}
+	vhook.Point("recv.before-write-timeline-mpd")
 	_, err = manifest.Write(ofh, "  ", true)
 	if err != nil {
 		log.Error("Failed to write MPD", "err", err)
